@@ -270,9 +270,7 @@ func init() {
 	regSym("strings.ToLower", func(fr *frame, a []value) value { return symLower(fr, strArg(a[0])) })
 	regSym("strings.ToUpper", func(fr *frame, a []value) value {
 		s := strArg(a[0])
-		u := mkUF("u_upper", SStr, s)
-		fr.i.m.assume(mkEq(mkLen(u), mkLen(s)))
-		return u
+		return mkUF("u_upper", SStr, s)
 	})
 	regSym("strings.EqualFold", func(fr *frame, a []value) value {
 		return boolVal(mkEq(toTerm(symLower(fr, strArg(a[0]))), toTerm(symLower(fr, strArg(a[1])))))
@@ -540,12 +538,9 @@ func symLower(fr *frame, s *Term) value {
 		// excludes A-Z: lower-casing is the identity, no UF (the UF plus its regex axiom makes cvc5 answer unknown)
 		return strVal(s)
 	}
-	u := mkUF("u_lower", SStr, s)
-	fr.i.m.assume(mkEq(mkLen(u), mkLen(s)))
-	fr.i.m.assume(mkEq(mkUF("u_lower", SStr, u), u))
-	// a string without upper-case ASCII letters is its own lower-casing (ASCII alphabet assumed)
-	fr.i.m.assume(mkImplies(mkNot(mkInRe(s, `(re.++ re.all (re.range "A" "Z") re.all)`)), mkEq(u, s)))
-	return u
+	// the primary solver knows the function natively (solver.go); the axioms that make the uninterpreted
+	// version usable are handed to the second solver only (machine.go crossUnsat)
+	return mkUF("u_lower", SStr, s)
 }
 
 // symSplit implements strings.Split/SplitN for a symbolic string and constant separator.
